@@ -139,17 +139,20 @@ func (sm *stateMachine) executeAction(t *T) bool {
 }
 
 func runAction(t *T, action func(*T)) (invalid bool, skipped bool) {
-	defer func(draws int) {
+	defer func(attempts int) {
 		if r := recover(); r != nil {
 			// a skip does not hide a failure the action has signalled before it
 			if _, ok := r.(invalidData); ok && !t.Failed() {
 				invalid = true
-				skipped = t.draws == draws
+				// "skipped" means the action gave up before it started to draw: a Draw that was started and then
+				// abandoned (e.g. Filter exhaustion) has left discarded attempts in the recording, so its step must
+				// be rejected as a whole for the pruned recording to replay the same way.
+				skipped = t.attempts == attempts
 			} else {
 				panic(r)
 			}
 		}
-	}(t.draws)
+	}(t.attempts)
 
 	action(t)
 	t.failOnError()
